@@ -1240,6 +1240,9 @@ def C18(ck):
     # (a) ownership discipline on the single-instance specs (instances share no variable: non-interference is by construction)
     wcfgs = [wcfg(j, 2 * j + 1, lens=(3, 2 * j + 1)) for j in ((2, 3, 4) if T else (2, 3))] + [wcfg(3, 7, lens=(3,), flush='emit', fail_blocks=[2])]
     rcfgs = [rcfg(j, clean(j + 2), lens=(3, 7)) for j in ((2, 3, 4) if T else (2, 3))] + [rcfg(3, ['ok', 'crc', 'ok', 'ok', 'eos'], lens=(3,))]
+    # block ranges: a batch that starts with skipped blocks hands its buffers over in a different slot order - the one place where
+    # the ownership of a block buffer moves between slots; the batches that follow must still give every task a buffer of its own
+    rcfgs += [rcfg(j, clean(2 * j + 3), lens=(3,), fr=2, to=0) for j in ((2, 3, 4) if T else (2, 3))]
     wscen = kzwriter.run_models(ck, wcfgs, max_paths=None if T else 120)
     rscen = kzreader.run_models(ck, rcfgs, max_paths=None if T else 120)
     # (b) K pipelines concurrently, no race detector (fast, many)
